@@ -172,11 +172,9 @@ def issues_from_leaks(ctx, trace_path):
         if sig in seen:
             continue
         seen.add(sig)
-        rp = ctx.save_replay("selfcal-leak-%s.ndjson" % common.sig_hash(sig),
-                             "".join(lines))
         issues.append(vlib.Issue({"C03"}, sig, "allocations made inside "
                                  "libvna still live after vnacal_new_free / "
-                                 "vnacal_free (config %s)" % cfg, replay=rp))
+                                 "vnacal_free (config %s)" % cfg, detail="".join(lines)))
     return issues
 
 
